@@ -159,14 +159,17 @@ func Main(t *testing.T) {
 	nt := map[string]bool{}
 	failed := false
 	var first *V
-	defer func() {
+	writeStats := func() {
+		st.NonTrivial = st.NonTrivial[:0]
 		for k := range nt {
 			st.NonTrivial = append(st.NonTrivial, k)
 		}
 		sort.Strings(st.NonTrivial)
 		b, _ := json.MarshalIndent(st, "", " ")
 		_ = os.WriteFile(filepath.Join(dir, "stats.json"), b, 0o644)
-	}()
+	}
+	flushStats.Store(&writeStats)
+	defer writeStats()
 	rapid.Check(t, func(rt *rapid.T) {
 		d := drawer{rt}
 		mi := d.intn(len(Registry))
@@ -212,14 +215,16 @@ func Main(t *testing.T) {
 				}
 				prog.Goroutines = append(prog.Goroutines, ops)
 			}
-			var schedule []int
 			var trace []string
+			fc.Program, fc.Mode = prog, "sched"
+			done := watchScheduled(fc, "scheduled program")
 			vs, flags, trace, err = RunScheduled(def, prog, func(n int) int {
 				c := d.intn(n)
-				schedule = append(schedule, c)
+				fc.Schedule = append(fc.Schedule, c)
 				return c
 			})
-			fc.Program, fc.Mode, fc.Schedule, fc.Trace = prog, "sched", schedule, trace
+			done()
+			fc.Trace = trace
 		} else if prop == "C05" {
 			prog := &Program{Mock: mi, WithResets: def.Resets && d.chance(35)}
 			ng := 2 + d.intn(5)
@@ -285,7 +290,9 @@ func Main(t *testing.T) {
 			for i := 0; i < n; i++ {
 				fc.Ops = append(fc.Ops, d.op(prop, def, nm, 0))
 			}
+			done := watch(fc, "sequential history")
 			vs, flags, err = RunHistory(def, fc.Ops)
+			done()
 		}
 		if err != nil {
 			st.Invalid++
@@ -367,6 +374,8 @@ func Replay(t *testing.T) {
 			// schedule-dependent: repeat (the race detector halts the process on the first report)
 			if fc.Mode == "sched" {
 				k := 0
+				done := watchScheduled(&fc, "scheduled program")
+				defer done()
 				vs, _, _, err = RunScheduled(def, fc.Program, func(n int) int {
 					c := 0
 					if k < len(fc.Schedule) {
@@ -384,7 +393,9 @@ func Replay(t *testing.T) {
 				}
 			}
 		} else {
+			done := watch(&fc, "sequential history")
 			vs, _, err = RunHistory(def, fc.Ops)
+			done()
 		}
 		var mine []V
 		for _, v := range vs {
